@@ -360,7 +360,7 @@ pub fn property() -> Property {
         id: "C19",
         rule: "(a) maximise: simulated annealing with restarts (16 deterministic chains seeded from VERIF_SEED, relocate/retype/add/remove/swap \
                men) over valid positions (12 chains: valid by the reference rules; 4 chains: whatever the library's own gate accepts), maximising semilegal::gen_all_into(Vec) (safe sink, so an overflow is counted, not executed); \
-               oracle: count <= 256 for all five generators. (b) exercise: valid positions (12 sources + heavy sources: many queens, dense, \
+               oracle: count <= 256 for all five generators. (b) exercise: valid positions (17 sources + heavy sources: many queens, dense, \
                mutated maximal positions) run through every generator and query (fixed-capacity lists, attack queries for 64 squares, \
                make/unmake of every semilegal move, SAN of every legal move); in the `checked` configuration (debug assertions + \
                overflow checks) an out-of-range get_unchecked / push_unchecked / unreachable_unchecked / pointer offset panics or aborts \
